@@ -40,3 +40,52 @@ def contract():
             "unwrap_splitter enumerates the field names of the splitter (bounded part of C05)",
         ],
     )
+
+
+def contract_c01():
+    """C01 on the same function: what a split hands on is exactly what was given.  Per iteration of the loop over
+    `inputs.items()` (an arbitrary (name, value) pair): the value is wrapped exactly once -- `StateArray(value)` of ITS OWN value,
+    or `value.split()` for a lazy field -- and stored under ITS OWN name (or the iteration raises TypeError); on return the
+    new task is `attrs.evolve(self, **<those wrapped values>)` and carries the splitter and container_ndim that were given."""
+    from pyvc.engine import U
+
+    def own_value_wrapped_under_own_name(E, st, events):
+        elem = to_U(st.ghost["_iter_elem"])
+        name = z3.Function("item0", U, U)(elem)
+        value = z3.Function("item1", U, U)(elem)
+        evs = [e for e in events if not e.raised]
+        if len(evs) != 2 or evs[1].name != "setitem" or not (evs[0].name == "StateArray" or evs[0].name.endswith(".split")):
+            raise Unsupported(f"Task.split: wrapping loop has effects {[e.name for e in evs]} (contract out of date)")
+        wrap, store = evs
+        recv = wrap.args[0] if wrap.args else None
+        if recv is None or not is_z3(recv):
+            return False
+        return z3_and(to_U(recv) == value, to_U(store.args[1]) == name, to_U(store.args[2]) == to_U(wrap.ret))
+
+    def evolved_task_carries_the_given_splitter(E, st, out):
+        tr = [e for e in st.trace if not e.raised]
+        ev = [e for e in tr if e.name == "attrs.evolve"]
+        sets = {e.args[1]: e for e in tr if e.name == "setattr"}
+        if len(ev) != 1 or "_splitter" not in sets or "_container_ndim" not in sets:
+            raise Unsupported("Task.split: result no longer built by attrs.evolve + _splitter/_container_ndim (contract out of date)")
+        entry = st.env["__entry__"] if "__entry__" in st.env else st.env
+        conj = [
+            to_U(ev[0].args[0]) == to_U(entry["self"]),
+            to_U(out.val) == to_U(ev[0].ret),
+            to_U(sets["_splitter"].args[0]) == to_U(ev[0].ret),
+            to_U(sets["_container_ndim"].args[0]) == to_U(ev[0].ret),
+            to_U(sets["_container_ndim"].args[2]) == to_U(entry["container_ndim"]),
+            bool(set(ev[0].kwargs) == {"**"}),  # nothing but the wrapped split inputs is changed on the new task
+        ]
+        if any(e.name == "unwrap_splitter" for e in tr):
+            conj.append(to_U(sets["_splitter"].args[2]) == to_U(entry["splitter"]))
+        return z3_and(*conj)
+
+    c = contract()
+    c.loops = {0: {"invariants": []}, 1: {"invariants": [], "iteration_ensures": [("own-value-wrapped-once-under-own-name", "property:C01", own_value_wrapped_under_own_name)]}}
+    c.ensures = [("new-task-is-self-evolved-with-the-wrapped-inputs-and-the-given-splitter", "property:C01", evolved_task_carries_the_given_splitter)]
+    c.trusted = [
+        "StateArray(value) holds the elements of value in order; attrs.evolve(self, **changes) copies every other field unchanged (both bounded part of C01)",
+        "the dict handed to attrs.evolve is the one the loop filled (same local variable; the engine havocs it at the loop cut, identity is by name)",
+    ]
+    return c
